@@ -1,6 +1,7 @@
 /-
 Driver glue for M-SaveSteps: prints the plan of a save so that the harness can compare it with the
-sequence of mutating calls the real `Font.save` makes.  Not part of the proved core.
+sequence of mutating calls the real `Font.save` makes; prints the order of the steps inside one layer's save; and
+predicts what a retry after a failure inside one layer's in-place save persists.  Not part of the proved core.
 -/
 import DefconModel.Util.SExp
 import DefconModel.SaveSteps
@@ -14,10 +15,53 @@ def encStep : Step → SExp
   | .writeComp i => .list [.atom "comp", ofNat i]
   | .openGlyphSet => .atom "open"
   | .writeGlyph _ => .atom "glyph"
+  | .deleteGlyph _ => .atom "delete"
   | .writeContents => .atom "contents"
+  | .writeLayerInfo => .atom "layerinfo"
   | .moveAside _ => .atom "aside"
   | .moveTemp _ => .atom "move"
   | .dropAside => .atom "drop"
+
+/-- the steps inside one layer's save, with the glyphs they concern -/
+def encLayerStep : Step → SExp
+  | .writeGlyph g => .list [.atom "glyph", ofNat g]
+  | .deleteGlyph g => .list [.atom "delete", ofNat g]
+  | s => encStep s
+
+/-- steps of the whole-save plan that the first comparison (one line per save, glyph sets of all layers merged) does
+not show: the deletions and the layer info are compared layer by layer (`layer`) -/
+def inMergedPlan : Step → Bool
+  | .dropAside => false
+  | .deleteGlyph _ => false
+  | .writeLayerInfo => false
+  | _ => true
+
+/-- one layer of a font opened from a UFO: `listed` = glyphs in contents.plist (blob 100+g on disk), `mem` = the layer's
+glyphs (the dirty ones with a blob of their own), `sched` = pending deletions -/
+def layerWorld (listed mem dirty sched bad : List Nat) (badInfo : Bool) : World :=
+  { font := { comps := [], compDirty := [], glyphs := mem.map (fun g => (g, if g ∈ dirty then 200 + g else 100 + g)),
+              glyphDirty := dirty, path := 1, format := 3, dirty := true, scheduled := sched, layerInfo := 1,
+              badGlyphs := bad, badLayerInfo := badInfo },
+    disk := [(1, { comps := [], files := listed.map (fun g => (g, 100 + g)), listing := listed })] }
+
+def ownUfo (w : World) : Ufo := (lookup w.disk w.font.path).getD {}
+
+def onDisk (u : Ufo) (g : Nat) : Option Nat :=
+  if g ∈ u.listing then (u.files.find? (fun x => x.1 = g)).map Prod.snd else none
+
+def inMemory (f : Font) (g : Nat) : Option Nat := (f.glyphs.find? (fun x => x.1 = g)).map Prod.snd
+
+/-- what a reader of the UFO misses / finds too much, compared with memory, over the glyph ids `univ` -/
+def verdict (w : World) (ok : Bool) (univ : List Nat) : SExp :=
+  if !ok then .list [.atom "raises"] else
+  let u := ownUfo w
+  let missing := univ.filter (fun g => (inMemory w.font g).isSome && onDisk u g != inMemory w.font g)
+  let extra := univ.filter (fun g => (inMemory w.font g).isNone && (onDisk u g).isSome)
+  let info := if u.layerinfo = w.font.layerInfo then [] else [SExp.atom "layerinfo"]
+  if missing.isEmpty && extra.isEmpty && info.isEmpty then .list [.atom "ok"]
+  else .list ([.atom "lost", .list (missing.map ofNat), .list (extra.map ofNat)] ++ info)
+
+def nats (x : SExp) : Option (List Nat) := asListOf? asNat? x
 
 def driverStep (u : Unit) (line : SExp) : Unit × SExp :=
   match line with
@@ -29,8 +73,41 @@ def driverStep (u : Unit) (line : SExp) : Unit × SExp :=
       let m : Mode := if mode = "inplace" then .inPlace else if mode = "new" then .saveAsNew 2 else .saveAsOver 2
       -- dropping what was put aside removes a temporary directory, ignoring errors: not a mutating call the
       -- harness can see fail, so it is not part of the compared plan
-      (u, .list (((plan f m).filter (· ≠ .dropAside)).map encStep))
+      (u, .list (((plan f m).filter inMergedPlan).map encStep))
     | _, _, _ => (u, .atom "bad-op")
+  | .list [.atom "layer", .atom mode, listed, mem, dirty, sched] =>
+    -- the order of the steps inside one layer's save
+    match nats listed, nats mem, nats dirty, nats sched with
+    | some li, some me, some di, some sc =>
+      let w := layerWorld li me di sc [] false
+      let m : Mode := if mode = "inplace" then .inPlace else .saveAsNew 2
+      (u, .list (((plan w.font m).filter (· ≠ .openGlyphSet)).map encLayerStep))
+    | _, _, _, _ => (u, .atom "bad-op")
+  | .list [.atom "retry", listed, mem, dirty, sched, .atom kind, arg] =>
+    -- an in-place save of one layer fails; (the content is corrected;) the save is repeated; what does the UFO show?
+    match nats listed, nats mem, nats dirty, nats sched, asNat? arg with
+    | some li, some me, some di, some sc, some a =>
+      let univ := (li ++ me ++ sc).eraseDups
+      if kind = "env" then
+        -- the environment fails at step `a` of the layer (0 = the first glyph write; the opening is step 0 of the plan)
+        let w := layerWorld li me di sc [] false
+        let r := attempt .inPlace (failAt .inPlace w (a + 1))
+        (u, verdict r.1 r.2 univ)
+      else if kind = "glyph" then
+        -- glyph `a` cannot be written; after the failure it is given writable content
+        let w := layerWorld li me di sc [a] false
+        let r1 := attempt .inPlace w
+        if r1.2 then (u, .list [.atom "no-failure"]) else
+        let r := attempt .inPlace (edits r1.1 [.setGlyph a (300 + a)])
+        (u, verdict r.1 r.2 univ)
+      else if kind = "layerinfo" then
+        let w := layerWorld li me di sc [] true
+        let r1 := attempt .inPlace w
+        if r1.2 then (u, .list [.atom "no-failure"]) else
+        let r := attempt .inPlace (edits r1.1 [.setLayerInfo 2])
+        (u, verdict r.1 r.2 univ)
+      else (u, .atom "bad-op")
+    | _, _, _, _, _ => (u, .atom "bad-op")
   | _ => (u, .atom "bad-op")
 
 end SaveSteps
